@@ -4,6 +4,7 @@ import ExecModel.Launcher
 import ExecModel.Props.C16
 import ExecModel.Props.C15
 import ExecModel.Props.C17
+import ExecModel.Lts.SysExplore
 /-!
   `modeld` — line protocol driver: one JSON object per line in, one JSON value per line out.
   Every request carries `"op"`.  Anything not understood yields `{"error": "bad-op"}`; nothing is
@@ -192,9 +193,126 @@ def wireOps (op : String) (j : Json) : Except String (Option Json) := do
       | .ack => Json.mkObj [("ack", true)])).toArray))
   | _ => pure none
 
+/-! ### Sys: trace replay -/
+
+def getOptNat (j : Json) (k : String) : Except String (Option Nat) :=
+  match j.getObjVal? k with
+  | .ok Json.null => pure none
+  | .ok v => do pure (some (← v.getNat?))
+  | .error _ => pure none
+
+def getNatList (j : Json) (k : String) : Except String (List Nat) :=
+  match j.getObjVal? k with
+  | .ok v => do pure (← fromJson? (α := Array Nat) v).toList
+  | .error _ => pure []
+
+structure SysCase where
+  cfg : Sys.Cfg
+  base : List Int
+  fail : List (Option String)
+  script : List Sys.Cmd
+
+def SysCase.eval (c : SysCase) (i : Nat) (inputs : List Int) : Except String Int :=
+  match c.fail.getD i none with
+  | some e => .error e
+  | none => .ok (c.base.getD i 0 + inputs.foldl (· + ·) 0)
+
+def parseCmd (j : Json) : Except String Sys.Cmd := do
+  match ← getStr j "c" with
+  | "submit" => pure .submit
+  | "cancel" => pure (.cancel (← getNat j "i"))
+  | "await" => pure (.await (← getNat j "i"))
+  | "shutdown" => pure (.shutdown (← getBool j "wait") (← getBool j "cancel"))
+  | c => throw s!"unknown cmd {c}"
+
+def parseSysCase (j : Json) : Except String SysCase := do
+  let cj ← j.getObjVal? "cfg"
+  let callsJ ← cj.getObjValAs? (Array Json) "calls"
+  let calls ← callsJ.toList.mapM (fun e => do
+    let deps ← getNatList e "deps"
+    let cores ← getOptNat e "cores"
+    let threads ← getOptNat e "threads"
+    let hasRes := (e.getObjValAs? Bool "hasRes").toOption.getD false
+    pure ({ deps := deps, cores := cores, threads := threads, hasRes := hasRes } : Sys.CallSpec))
+  let base ← callsJ.toList.mapM (fun e => do pure ((e.getObjValAs? Int "base").toOption.getD 0))
+  let fail ← callsJ.toList.mapM (fun e => getOptStr e "fail")
+  let vRes ← getBool cj "resolver"
+  let vBlock ← getOptNat cj "block"
+  let vMc ← getOptNat cj "maxCores"
+  let vMw ← getOptNat cj "maxWorkers"
+  let vEc := (cj.getObjValAs? Nat "execCores").toOption.getD 1
+  let cfg : Sys.Cfg := Sys.Cfg.mk vRes vBlock vMc vMw vEc calls
+  let script ← (← j.getObjValAs? (Array Json) "script").toList.mapM parseCmd
+  pure { cfg, base, fail, script }
+
+def parseLabel (j : Json) : Except String (Sys.Label Int String) := do
+  let l ← getStr j "l"
+  let b := (j.getObjValAs? Bool "r").toOption.getD false
+  let k := (j.getObjValAs? Nat "k").toOption.getD 0
+  let i := (j.getObjValAs? Nat "i").toOption.getD 0
+  match l with
+  | "mSubmit" => pure .mSubmit | "mSubmitRaise" => pure .mSubmitRaise
+  | "mCancel" => pure (.mCancel i) | "mAwait" => pure (.mAwait i) | "mSdBegin" => pure .mSdBegin
+  | "sdDrainGet" => pure (.sdDrainGet b) | "sdDrainSkip" => pure (.sdDrainSkip b)
+  | "sdDrainCancel" => pure (.sdDrainCancel b) | "sdDrainDone" => pure (.sdDrainDone b)
+  | "sdDrainEmpty" => pure (.sdDrainEmpty b) | "sdPutStop" => pure (.sdPutStop b)
+  | "sdJoinThread" => pure (.sdJoinThread b) | "sdJoinThreadRaise" => pure (.sdJoinThreadRaise b)
+  | "sdJoinQueue" => pure (.sdJoinQueue b) | "sdFinish" => pure (.sdFinish b)
+  | "rGet" => pure .rGet | "rDecideReady" => pure .rDecideReady | "rDecidePark" => pure .rDecidePark
+  | "rForward" => pure .rForward | "rFailDep" => pure .rFailDep | "rAck" => pure .rAck
+  | "rScanFwd" => pure (.rScanFwd k) | "rScanFail" => pure (.rScanFail k)
+  | "rBeginSd" => pure .rBeginSd | "rStopAck" => pure .rStopAck | "rJoinExit" => pure .rJoinExit
+  | "dGet" => pure .dGet | "dPrune" => pure .dPrune | "dLaunch" => pure .dLaunch | "dAck" => pure .dAck
+  | "dJoinThread" => pure .dJoinThread | "dJoinThreadRaise" => pure .dJoinThreadRaise
+  | "dStopAck" => pure .dStopAck | "dJoinExit" => pure .dJoinExit
+  | "wBoot" => pure (.wBoot k) | "wGet" => pure (.wGet k) | "wSrn" => pure (.wSrn k)
+  | "wSend" => pure (.wSend k) | "wFinish" => pure (.wFinish k) | "wFailA" => pure (.wFailA k)
+  | "wFailB" => pure (.wFailB k) | "wFailC" => pure (.wFailC k) | "wProcStop" => pure (.wProcStop k)
+  | "wAck" => pure (.wAck k) | "wStopAck" => pure (.wStopAck k) | "wJoinExit" => pure (.wJoinExit k)
+  | _ => throw s!"unknown label {l}"
+
+def labelName (l : Sys.Label Int String) : String := (reprStr l)
+
+def jFut : Sys.Fut Int String → Json
+  | .absent => "absent" | .pending => "pending" | .running => "running" | .cancelled => "cancelled"
+  | .cancelledNotified => "cancelledNotified"
+  | .finished v => Json.mkObj [("finished", toJson v)]
+  | .failed e => Json.mkObj [("failed", Json.str e)]
+
+def jSysState (s : Sys.State Int String) : Json :=
+  Json.mkObj [("fut", Json.arr (s.fut.map jFut).toArray), ("script_left", toJson s.script.length),
+    ("raised", toJson s.raised), ("mainPc", Json.str (reprStr s.mainPc)),
+    ("res", Json.str (reprStr s.res)), ("disp", Json.str (reprStr s.disp)),
+    ("wk", Json.arr (s.wk.map (fun w => Json.mkObj [("pc", Json.str (reprStr w.pc)), ("q", Json.str (reprStr w.q)),
+        ("procAlive", Json.bool w.procAlive), ("procSpawned", Json.bool w.procSpawned),
+        ("served", Json.arr (w.served.map (fun (n : Nat) => toJson n)).toArray)])).toArray),
+    ("qo", Json.str (reprStr s.qo)), ("qi", Json.str (reprStr s.qi)),
+    ("waitLst", Json.arr (s.waitLst.map (fun (n : Nat) => toJson n)).toArray),
+    ("active", Json.str (reprStr s.active)),
+    ("sentLog", Json.arr (s.sentLog.map (fun (n : Nat) => toJson n)).toArray),
+    ("cancelOk", Json.arr (s.cancelOk.map (fun (n : Nat) => toJson n)).toArray),
+    ("frontOpen", Json.bool s.frontOpen), ("innerOpen", Json.bool s.innerOpen)]
+
+def sysOps (op : String) (j : Json) : Except String (Option Json) := do
+  match op with
+  | "sys_replay" =>
+    let c ← parseSysCase j
+    let labels ← (← j.getObjValAs? (Array Json) "labels").toList.mapM parseLabel
+    let stepf := Sys.step c.cfg c.eval "CancelledError"
+    let rec go (s : Sys.State Int String) (idx : Nat) : List (Sys.Label Int String) → Json
+      | [] => Json.mkObj [("accepted", true), ("steps", toJson idx), ("state", jSysState s),
+          ("enabled", Json.arr ((Sys.enabled c.cfg c.eval "CancelledError" s).map (fun p => Json.str (labelName p.1))).toArray)]
+      | l :: ls => match stepf s l with
+        | some s' => go s' (idx + 1) ls
+        | none => Json.mkObj [("accepted", false), ("index", toJson idx), ("label", Json.str (labelName l)),
+            ("state", jSysState s),
+            ("enabled", Json.arr ((Sys.enabled c.cfg c.eval "CancelledError" s).map (fun p => Json.str (labelName p.1))).toArray)]
+    pure (some (go (Sys.init c.cfg c.script) 0 labels))
+  | _ => pure none
+
 end H
 
-def handlers : List (String → Json → Except String (Option Json)) := [H.cmdOps, H.presetOps, H.wireOps]
+def handlers : List (String → Json → Except String (Option Json)) := [H.cmdOps, H.presetOps, H.wireOps, H.sysOps]
 
 def handle (line : String) : Json :=
   match Json.parse line with
